@@ -53,6 +53,8 @@ ASSUMPTIONS = [
     "the helpers store (simulated independently); remotes may be attached read_only on either side",
     "a FileExistsError upload fault honours its contract (the object IS there, put by somebody else) and is injected "
     "on directory objects only: dvc_objects skips it silently for the first file of a batch and reports it for the others",
+    "the producer's caches are planted or filled through index.save() from a workspace; an incremental push may find "
+    "the cache without an object that the (pre-populated) remote still holds",
     "upload faults are injected per (destination store, object id) through put_file of the destination file system",
     "a directory entry that some prefix covers has a remote designated for its own key (else a fetch into an empty "
     "cache cannot load it: DataIndexDirError)",
@@ -273,6 +275,10 @@ class Case:
                 need = True
                 if self.case.get("topup", True):
                     place[c].update(req)
+        # an incremental push: the cache has lost objects that a remote still holds ("pre")
+        for c, toks in (self.case.get("cache_lacks") or {}).items():
+            if c in place:
+                place[c] -= set(toks)
         return place, need
 
     def single_cache_per_group(self):
@@ -401,6 +407,59 @@ def jp(k, rp=None):
     return "/".join(list(k) + (rp.split("/") if rp else []))
 
 
+def save_into_caches(C, odbs, root):
+    """write the data into a workspace, describe it by an index with explicit children and a FileStorage in the data
+    role, and let dvc_data.index.save.save() fill the caches; returns a description of what went wrong, if anything"""
+    from dvc_objects.fs.local import localfs
+
+    from dvc_data.hashfile.hash_info import HashInfo
+    from dvc_data.hashfile.meta import Meta
+    from dvc_data.index import DataIndex, DataIndexEntry, FileStorage, ObjectStorage, StorageInfo
+    from dvc_data.index.save import save
+
+    ws0 = os.path.join(root, "producer-ws")
+    idx = DataIndex()
+
+    def put(k, t):
+        fp = os.path.join(ws0, *k) if k else os.path.join(ws0, "root-file")
+        os.makedirs(os.path.dirname(fp), exist_ok=True)
+        with open(fp, "wb") as f:
+            f.write(C.content[t])
+        idx[k] = DataIndexEntry(key=k, meta=Meta(size=len(C.content[t])), hash_info=HashInfo("md5", C.oid[t]))
+
+    os.makedirs(ws0)
+    for kind, k, t in C.items:
+        if kind == "file":
+            put(k, t)
+            continue
+        idx[k] = DataIndexEntry(key=k, meta=Meta(isdir=True), loaded=True)
+        os.makedirs(os.path.join(ws0, *k), exist_ok=True)
+        for rp, f in C.dirs[t]:
+            # no entries for the intermediate directories: save() would store a tree object for each of them too
+            put(k + tuple(rp.split("/")), f)
+    declared = list(C.dmap)
+    if not any(p == () for p, _ in declared):
+        declared.append(((), {}))
+    for p, info in declared:
+        wp = os.path.join(ws0, *p) if p or not any(k == () and kind == "file" for kind, k, _ in C.items) \
+            else os.path.join(ws0, "root-file")
+        idx.storage_map[p] = StorageInfo(
+            data=FileStorage(p, localfs, wp),
+            cache=ObjectStorage(p, odbs[info["cache"]]) if info.get("cache") else None,
+            remote=ObjectStorage(p, odbs[info["remote"]]) if info.get("remote") else None,
+        )
+    try:
+        save(idx)
+    except Exception as exc:  # noqa: BLE001
+        return f"index.save() raised {exc!r}"[:300]
+    for kind, k, t in C.items:
+        if kind == "dir" and resolve(C.dmap, k, "cache") is not None:
+            got = idx[k].hash_info.value if idx[k].hash_info else None
+            if got != C.oid[t]:
+                return f"index.save() gave directory {k} the id {got}, its listing has {C.oid[t]}"
+    return None
+
+
 def run_real(ctx, C):
     from dvc_objects.fs.local import localfs
 
@@ -438,9 +497,25 @@ def run_real(ctx, C):
             ix.close()
 
     place, _need = C.placement()
-    for c, toks in place.items():
-        for t in toks:
-            impl.plant(path[c], C.oid[t], C.content[t])
+    saved_problem = None
+    if case.get("via_save"):
+        # the producer's route: workspace -> index with hashes -> save(index), which copies every file into the
+        # cache the mapping designates for ITS key and stores every directory object in the cache of the directory
+        saved_problem = save_into_caches(C, odbs, root)
+        held = {c: set(listing(path[c], C)) for c in C.caches}
+        lack = {c: sorted(place[c] - held[c]) for c in C.caches if place[c] - held[c]}
+        if lack and saved_problem is None:
+            saved_problem = f"after index.save() the designated caches lack {lack}"
+        for c, toks in (case.get("cache_lacks") or {}).items():
+            for t in toks:
+                fp = os.path.join(path[c], C.oid[t][:2], C.oid[t][2:])
+                if os.path.lexists(fp):
+                    os.chmod(fp, 0o644)
+                    os.unlink(fp)
+    else:
+        for c, toks in place.items():
+            for t in toks:
+                impl.plant(path[c], C.oid[t], C.content[t])
     for r, toks in (case.get("pre") or {}).items():
         for t in toks:
             impl.plant(path[r], C.oid[t], C.content[t], mode=None)
@@ -448,7 +523,7 @@ def run_real(ctx, C):
         if n in path:
             for t in toks:
                 impl.plant(path[n], C.oid[t], C.content[t])
-    obs = {"initial": {s: listing(path[s], C) for s in C.stores}, "rounds": []}
+    obs = {"initial": {s: listing(path[s], C) for s in C.stores}, "rounds": [], "saved_problem": saved_problem}
 
     def snapshot():
         return {s: listing(path[s], C) for s in C.stores}
@@ -640,6 +715,8 @@ def judge(C, obs):
                     if set(after[n]) != exact | set(before[n]):
                         problems.append(("C18:fetch-not-exact", f"round {i}: fresh cache {n} holds {sorted(after[n])}, expected exactly {sorted(exact)}"))
 
+    if obs.get("saved_problem"):
+        problems.append(("C18:saved-object-not-in-designated-cache", obs["saved_problem"]))
     rounds = obs["rounds"]
     kinds = [r["kind"] for r in rounds]
     last_push = max(i for i, k in enumerate(kinds) if k == "push")
@@ -902,6 +979,24 @@ def sample_routes(rng, base):
             it.append({"explicit": True})
     if rng.random() < 0.25:
         rng.choice(base["map"])[1]["data"] = rng.choice(["file", "x0"])
+
+
+def sample_producer(rng, base, C):
+    """how the producer's caches were filled, and an incremental push over a cache that has lost an object"""
+    if C.klass() is not None or C.ro_push:
+        return
+    es = C.entries(C.map)
+    if (not C.via_add and not C.placement()[1] and all(resolve(C.map, k, "cache") is not None for k, _ in es)
+            and all(k for _, k, _ in C.items) and rng.random() < 0.35):
+        base["via_save"] = True
+    gs = C.groups(C.map)
+    if len(gs) == 1 and not base.get("pre") and rng.random() < 0.2:
+        r, c, req = gs[0]
+        files = sorted(t for t in req if t not in C.dirs)
+        if files and c is not None:
+            f = rng.choice(files)
+            base["pre"] = {r: [f]}
+            base["cache_lacks"] = {c: [f]}
 
 
 def sample_flags(rng, c, C):
@@ -1193,6 +1288,31 @@ CORPUS += [
 ]
 
 
+CORPUS += [
+    # the producer fills its caches through index.save(): identical contents under two prefixes with DIFFERENT
+    # caches must reach both caches (and then both remotes)
+    {"files": {"f0": b"same bytes".hex(), "f1": b"other".hex()},
+     "items": [["file", ["a", "f"], "f0"], ["file", ["b", "g"], "f0"], ["dir", ["b", "d"], [["x", "f0"], ["y", "f1"]]]],
+     "map": [[["a"], {"cache": "c0", "remote": "r0"}], [["b"], {"cache": "c1", "remote": "r1"}]],
+     "cls": {"r0": "base", "r1": "base"}, "pre": {}, "topup": True, "fails": [], "via_save": True},
+    {"files": {"f0": b"same bytes".hex(), "f1": b"".hex()},
+     "items": [["dir", ["d"], [["a", "f0"], ["sub/b", "f1"], ["sub/c", "f0"]]], ["file", ["f"], "f0"]],
+     "map": [[[], {"cache": "c0", "remote": "r0"}], [["d", "sub"], {"cache": None, "remote": "r1"}]],
+     "cls": {"r0": "local", "r1": "base"}, "pre": {}, "topup": True, "fails": [["r0", "f0"]], "via_save": True},
+    # an incremental push: the remote already holds file a of the directory, the local cache has lost it; the
+    # grown directory (object + new file) must still arrive
+    {"files": {"f0": b"old".hex(), "f1": b"new".hex()},
+     "items": [["dir", ["d"], [["a", "f0"], ["b", "f1"]]]],
+     "map": [[[], {"cache": "c0", "remote": "r0"}]],
+     "cls": {"r0": "base"}, "pre": {"r0": ["f0"]}, "cache_lacks": {"c0": ["f0"]}, "topup": True, "fails": []},
+    {"files": {"f0": b"old".hex(), "f1": b"new".hex(), "f2": b"x".hex()},
+     "items": [["dir", ["d"], [["a", "f0"], ["b", "f1"]]], ["file", ["f"], "f2"]],
+     "map": [[[], {"cache": "c0", "remote": "r0"}]],
+     "cls": {"r0": "local"}, "pre": {"r0": ["f0"]}, "cache_lacks": {"c0": ["f0"]}, "topup": True,
+     "fails": [["r0", "f1"]], "tmp": ["r0"]},
+]
+
+
 def dimensions(C, obs):
     """the input dimensions of tools/COVERAGE_AUDIT.md this case has"""
     import unicodedata
@@ -1304,6 +1424,11 @@ def dimensions(C, obs):
         d.append("state:cache-with-tmp_dir")
     if case.get("pre"):
         d.append("state:remote-prepopulated")
+    if case.get("cache_lacks"):
+        d.append("state:cache-lost-an-object-the-remote-holds(incremental-push)")
+    d.append("route:caches-filled-by-" + ("index.save()" if case.get("via_save") else "planting"))
+    if case.get("via_save") and len(C.caches) > 1:
+        d.append("route:index.save()-into-several-caches")
     if case.get("cache_pre"):
         d.append("state:fetch-cache-prepopulated")
     if case.get("wipe"):
@@ -1455,6 +1580,7 @@ def run(ctx):
                 base["ro_fetch"] = sorted(ctx.rng.sample(C.remotes, ctx.rng.randint(1, len(C.remotes))))
             elif x < 0.35:
                 base["ro_push"] = [ctx.rng.choice(C.remotes)]
+        sample_producer(ctx.rng, base, Case(base))
         C = Case(base)
         ups = uploads_of(C)
         if not ups:
